@@ -42,6 +42,7 @@ __CPROVER_ensures(pfout != &g_file_tmp ==> g_tmp_write_error == __CPROVER_old(g_
 ;
 void uncrustify_end_contract(void) __CPROVER_requires(1) __CPROVER_assigns() __CPROVER_ensures(1) ;
 _Bool g_matches;   /* ghost: last result of bout_content_matches */
+_Bool g_no_backup; /* ghost: the no_backup argument of this call of do_source_file */
 _Bool bout_content_matches_contract(struct file_mem *fm, _Bool report_status, _Bool is_quiet)
 __CPROVER_assigns(g_matches)
 __CPROVER_ensures(g_matches == __CPROVER_return_value)
@@ -120,6 +121,9 @@ __CPROVER_ensures(g_failure_seen == (__CPROVER_old(g_failure_seen) || __CPROVER_
 int rename_contract(const char *from, const char *to)
 __CPROVER_requires(from == g_tmp_path && to == g_p_out && INPLACE)
 __CPROVER_requires(g_tmp_closed && g_tmp_closed_ok)
+/* C13-K1c: unless backups are switched off, the original bytes are safe in the backup BEFORE the path is replaced (a failure or a kill in a later
+ * backup step would otherwise leave the formatted text in the file and the original nowhere) */
+__CPROVER_requires(g_no_backup || g_backup_done_ok)
 __CPROVER_assigns(g_fs_writes, g_renamed, g_target_is_final, g_failure_seen)
 __CPROVER_ensures(g_fs_writes == __CPROVER_old(g_fs_writes) + 1)
 __CPROVER_ensures(g_renamed == (__CPROVER_return_value == 0) && g_target_is_final == (__CPROVER_old(g_target_is_final) || __CPROVER_return_value == 0))
@@ -151,7 +155,7 @@ void do_source_file_contract(const char *filename_in, const char *filename_out, 
 /* call sites (main, process_source_list): --check excludes every output option and --if-changed */
 __CPROVER_requires(__CPROVER_is_fresh(filename_in, 1) && (filename_out == (const char*)0 || filename_out == filename_in || __CPROVER_is_fresh(filename_out, 1)))
 __CPROVER_requires(g_p_in == filename_in && g_p_out == filename_out && (filename_out == filename_in ==> g_same_in_out) && (filename_out == (const char*)0 ==> !g_same_in_out))
-__CPROVER_requires(stdout == &g_stdout_obj)
+__CPROVER_requires(stdout == &g_stdout_obj && !g_no_backup == !no_backup)
 __CPROVER_requires(!(CPD(do_check) && CPD(if_changed)))
 __CPROVER_requires((CPD(do_check) || CPD(if_changed)) ==> D8_FRESH(CPD(bout)))
 __CPROVER_requires(g_fs_writes == 0 && !g_target_opened_for_write && !g_tmp_open && !g_tmp_closed && !g_tmp_closed_ok && !g_tmp_write_error
